@@ -380,7 +380,8 @@ def eval_case(c):
         budget = f.get('kw', {}).get('max_num_steps', 20000 if c.get('kind') == 'stack' else 100000)
         # fault-free stacks run with an explicit budget of 20000 steps: <= 20000 steps x 3 solutions x 5 layers at ~2 us per step is ~1 s of CPU even under
         # the sanitizer's slowdown, so 60 s of CPU without returning is a verdict there as well (> 40x slack)
-        if not (isinstance(budget, int) and (budget <= 1000 or (c.get('kind') == 'stack' and budget <= 20000))):
+        huge_alloc = isinstance(f.get('kw', {}).get('expected_size'), int) and f['kw']['expected_size'] >= 10 ** 6     # CPU spent touching a requested multi-GB buffer says nothing about the step budget
+        if huge_alloc or not (isinstance(budget, int) and (budget <= 1000 or (c.get('kind') == 'stack' and budget <= 20000))):
             # M4 is only a verdict for explicit small step budgets; otherwise CPU exhaustion (e.g. touching a huge allocation) is inconclusive
             return {'status': 'inconclusive', 'nontrivial': False, 'violations': [], 'obs': dict(obs, note='CPU limit reached without a small step budget'), 'counters': cnt}
         key = 'radius0-zero-never-returns' if f.get('radius0') == 0.0 else 'call-does-not-return'
